@@ -72,6 +72,33 @@ type (
 
 func (m Marsh) MarshalValue() data.Value { return data.String("marsh:" + strconv.Itoa(m.V)) }
 
+// named scalar types that marshal themselves
+type (
+	Level int
+	Label string
+)
+
+func (l Level) MarshalValue() data.Value {
+	switch l {
+	case 0:
+		return data.String("low")
+	case 1:
+		return data.String("high")
+	}
+	return data.Null{}
+}
+func (l Label) MarshalValue() data.Value { return data.List{data.String("label"), data.String(string(l))} }
+
+func levelValue(i int64) ref.Value {
+	switch Level(i) {
+	case 0:
+		return ref.S("low")
+	case 1:
+		return ref.S("high")
+	}
+	return ref.N()
+}
+
 func parseF(s string) float64 {
 	f, _ := strconv.ParseFloat(s, 64)
 	return f
@@ -118,6 +145,13 @@ func key(name string, lower bool) string {
 		return "k"
 	}
 	panic("unknown field " + name)
+}
+
+func key2(name string, lower bool) string {
+	if !lower {
+		return name
+	}
+	return map[string]string{"L": "l", "Ls": "ls", "P": "p"}[name]
 }
 
 func el(r Recipe, i int) Recipe {
@@ -331,6 +365,46 @@ func build(r Recipe, c *C20Case) (interface{}, ref.Value) {
 			e[key("Tags", lower)] = ref.L()
 		}
 		return s, ref.M(e)
+	case "level":
+		return Level(r.I % 3), levelValue(r.I % 3)
+	case "label":
+		return Label(r.S), ref.L(ref.S("label"), ref.S(r.S))
+	case "slice_level":
+		s := make([]Level, len(r.Elems))
+		l := make([]ref.Value, len(r.Elems))
+		for i, e := range r.Elems {
+			s[i], l[i] = Level(e.I%3), levelValue(e.I%3)
+		}
+		return s, ref.L(l...)
+	case "slice_label":
+		s := make([]Label, len(r.Elems))
+		l := make([]ref.Value, len(r.Elems))
+		for i, e := range r.Elems {
+			s[i], l[i] = Label(e.S), ref.L(ref.S("label"), ref.S(e.S))
+		}
+		return s, ref.L(l...)
+	case "slice_marsh":
+		s := make([]Marsh, len(r.Elems))
+		l := make([]ref.Value, len(r.Elems))
+		for i, e := range r.Elems {
+			s[i], l[i] = Marsh{int(e.I % 100)}, ref.S("marsh:"+strconv.Itoa(int(e.I%100)))
+		}
+		return s, ref.L(l...)
+	case "map_level":
+		m := map[string]Level{}
+		e := map[string]ref.Value{}
+		for i, k := range r.Keys {
+			m[k], e[k] = Level(el(r, i).I%3), levelValue(el(r, i).I%3)
+		}
+		return m, ref.M(e)
+	case "struct_level":
+		type withLevel struct {
+			L  Level
+			Ls []Level
+			P  *Level
+		}
+		lv := Level(r.I % 3)
+		return withLevel{L: lv, Ls: []Level{lv, 1}, P: &lv}, ref.M(map[string]ref.Value{key2("L", lower): levelValue(r.I % 3), key2("Ls", lower): ref.L(levelValue(r.I%3), levelValue(1)), key2("P", lower): levelValue(r.I % 3)})
 	case "marsh":
 		return Marsh{int(r.I % 1000)}, ref.S("marsh:" + strconv.Itoa(int(r.I%1000)))
 	case "ptr_marsh":
@@ -350,7 +424,7 @@ var (
 	c20Strs   = []string{"", "a", "0", "false", "null", "é", "<b>", "日本", "a b", "x\x00y", "\xff"}
 	c20Leaf   = []string{"nil", "bool", "mybool", "int", "int8", "int16", "int32", "int64", "myint", "uint", "uint8", "uint16", "uint32", "uint64",
 		"float64", "float32", "myfloat", "string", "mystr", "time", "slice_nil", "map_nil", "nilptr_struct", "nilptr_int", "nilptr_ptr", "nilptr_marsh",
-		"s1", "s3", "marsh", "ptr_marsh", "slice_int", "slice_str", "map_int"}
+		"s1", "s3", "marsh", "ptr_marsh", "slice_int", "slice_str", "map_int", "level", "label", "slice_level", "slice_label", "slice_marsh", "map_level", "struct_level"}
 	c20Node = []string{"slice_any", "map_any", "map_named", "ptr", "s2", "value", "slice_ptr"}
 )
 
@@ -394,7 +468,7 @@ func genRecipe(t *rapid.T, depth int) Recipe {
 		r.I = rapid.Int64Range(0, 4102444800).Draw(t, "sec")
 		r.U = uint64(rapid.IntRange(0, 1000).Draw(t, "xy"))
 		r.Keys = rapid.SliceOfN(rapid.SampledFrom(c20Strs), 0, 3).Draw(t, "tags")
-	case "slice_int", "slice_str", "map_int":
+	case "slice_int", "slice_str", "map_int", "slice_level", "slice_label", "slice_marsh", "map_level":
 		n := rapid.IntRange(0, 4).Draw(t, "n")
 		for i := 0; i < n; i++ {
 			var e Recipe
